@@ -9,11 +9,11 @@ import re
 from extract import ExtractionError, strip_comments, blank_comments, match_brace
 
 TYPE_RX = (r"(?:typename\s+)?(?:SimTK::)?(?:"
-           r"RealP|Real|P|E|T|EPrecision|long double|double|float|int|bool|unsigned|"
+           r"RealP|Real|P|E|T|EV|EM|E1|E2|EResult|EPrecision|long double|double|float|int|bool|unsigned|"
            r"(?:Unit)?Vec[2-6]?P?|Row[2-6]?P?|Mat[2-6][2-6]P?|SymMat[2-6][2-6]P?|SpatialVecP?|SpatialVec|SpatialRowP?|SpatialMatP?|"
            r"QuaternionP?|Quaternion_<P>|Rotation_<P>|RotationP|Rotation|InverseRotation_<P>|Transform_<P>|TransformP|Transform|"
            r"UnitVec<P,1>|UnitVec3P?|UnitVecP|"
-           r"(?:Unit)?(?:Vec|Row|Mat|SymMat)<[^;=()]*?>|Inertia_<P>|InertiaP|Inertia|UnitInertia_<P>|UnitInertiaP|UnitInertia|Gyration_<P>|"
+           r"(?:Unit)?(?:Vec|Row|Mat|SymMat)<[^;=()]*?>|Inertia_<P>|InertiaP|Inertia_|Inertia|UnitInertia_<P>|UnitInertiaP|UnitInertia_|UnitInertia|Gyration_<P>|"
            r"CoordinateAxis|CoordinateDirection|BodyOrSpaceType|MassProperties_<P>|MassPropertiesP|SpatialInertia_<P>|SpatialInertia_|ArticulatedInertia_<P>|ArticulatedInertia_|Mat33E|Vec3E|auto"
            r")")
 DECL_RX = re.compile(r"^(?:static\s+)?(?:const\s+)?(" + TYPE_RX + r")\s*(?:const\s*)?&?\s+(?=[A-Za-z_])")
@@ -366,7 +366,13 @@ def params_of(header):
     if not inner or inner == "void":
         return []
     names = []
-    for p in split_top(inner):
+    # commas inside template argument lists do not separate parameters
+    flat, depth = [], 0
+    for ch in inner:
+        if ch == "<": depth += 1
+        elif ch == ">": depth -= 1
+        flat.append(";" if (ch == "," and depth > 0) else ch)
+    for p in split_top("".join(flat)):
         p = re.sub(r"=.*$", "", p).strip()       # default arguments
         m = re.search(r"(\w+)\s*(?:\[\s*\d*\s*\])?$", p)
         if not m:
